@@ -159,6 +159,34 @@ pub fn check(c: &Case) -> CheckResult {
         c.src.with(|s| sc.fill_rect(0.0, 0.0, c.w as f32, c.h as f32, s, &so));
         sc.get_data().to_vec()
     };
+    // every source kind: the colour shaded under global alpha A must be the alpha-1 colour scaled by A
+    // (within 1/255 per channel, +1 for the bilinear image path); in particular alpha 0 shades nothing
+    if !c.src.is_solid() {
+        let s_full: Vec<u32> = {
+            let mut sc = DrawTarget::new(c.w, c.h);
+            let so = DrawOptions { blend_mode: BlendMode::Src, alpha: 1.0, antialias: AntialiasMode::Gray };
+            c.src.with(|s| sc.fill_rect(0.0, 0.0, c.w as f32, c.h as f32, s, &so));
+            sc.get_data().to_vec()
+        };
+        let a255 = (alpha.max(0.0).min(1.0) * 255.0 + 0.5) as u32 as f64;
+        for i in 0..n {
+            let (f, g) = (ch(s_full[i]), ch(s_img[i]));
+            for k in 0..4 {
+                if (g[k] as f64 - f[k] as f64 * a255 / 255.0).abs() > 2.0 {
+                    return Err(format!(
+                        "{} source at pixel ({},{}): colour {} under global alpha {} is not the alpha-1 colour {} scaled by round(255 alpha)/255 (the source colour must be scaled by the global alpha at every pixel)",
+                        c.src.kind(),
+                        i as i32 % c.w,
+                        i as i32 / c.w,
+                        hex(s_img[i]),
+                        alpha,
+                        hex(s_full[i])
+                    ));
+                }
+            }
+        }
+        o.class("alpha-scaling-of-shaded-source-checked");
+    }
     if let SrcSpec::Solid(col) = &c.src {
         for (i, s) in s_img.iter().enumerate() {
             if !solid_scaled_ok(*col, alpha, *s) {
